@@ -25,15 +25,15 @@ import (
 )
 
 // argv is one value of an argument domain.
-type argv struct {
+type seqArg struct {
 	Class string
 	Show  string
-	Go    string             // Go expression ("" when not expressible)
-	V     any                // static value
-	Mk    func(in *inst) any // value depending on the instance (overrides V)
+	Go    string                // Go expression ("" when not expressible)
+	V     any                   // static value
+	Mk    func(in *seqInst) any // value depending on the instance (overrides V)
 }
 
-func (a argv) value(in *inst) any {
+func (a seqArg) value(in *seqInst) any {
 	if a.Mk != nil {
 		return a.Mk(in)
 	}
@@ -101,15 +101,15 @@ func winPath(p string) string {
 }
 
 // dom holds the domains of one (tier, OS type).
-type dom struct {
+type seqDom struct {
 	win      bool
 	thorough bool
-	paths    []argv // full path domain
-	core     []argv // core path domain
+	paths    []seqArg // full path domain
+	core     []seqArg // core path domain
 }
 
-func newDom(win, thorough bool) *dom {
-	d := &dom{win: win, thorough: thorough}
+func newDom(win, thorough bool) *seqDom {
+	d := &seqDom{win: win, thorough: thorough}
 
 	ents := append([]pathEnt{}, unixPaths...)
 	if win {
@@ -122,7 +122,7 @@ func newDom(win, thorough bool) *dom {
 			p = winPath(p)
 		}
 
-		a := argv{Class: e.Class, Show: e.Show, Go: e.Go, V: p}
+		a := seqArg{Class: e.Class, Show: e.Show, Go: e.Go, V: p}
 		if a.Show == "" {
 			a.Show = fmt.Sprintf("%q", p)
 		}
@@ -145,7 +145,7 @@ func newDom(win, thorough bool) *dom {
 }
 
 // px translates a Unix-form path of the harness tree for this OS type.
-func (d *dom) px(p string) string {
+func (d *seqDom) px(p string) string {
 	if d.win {
 		return winPath(p)
 	}
@@ -153,10 +153,10 @@ func (d *dom) px(p string) string {
 	return p
 }
 
-func strs(class func(string) string, vs ...string) []argv {
-	var out []argv
+func strDomain(class func(string) string, vs ...string) []seqArg {
+	var out []seqArg
 	for _, v := range vs {
-		a := argv{Class: class(v), Show: fmt.Sprintf("%q", v), Go: fmt.Sprintf("%q", v), V: v}
+		a := seqArg{Class: class(v), Show: fmt.Sprintf("%q", v), Go: fmt.Sprintf("%q", v), V: v}
 		if v == longName {
 			a.Show, a.Go = `300*"n"`, `strings.Repeat("n", 300)`
 		}
@@ -222,7 +222,7 @@ func volClass(s string) string {
 	return "no-volume"
 }
 
-func (d *dom) globPatterns() []argv {
+func (d *seqDom) globPatterns() []seqArg {
 	ps := []string{"", "*", "/*", "/a/*", "/*/*", "[", "/a/[", `\`, "/a/f", "a*", "/a/l/*", "//*", "*/", "/a/*/", `/a/\f`, "/a/?", "/a/[a-z]", "/nope/*", "../*", `C:\*`}
 	if !d.thorough {
 		ps = []string{"", "*", "/*", "/a/*", "/*/*", "[", "/a/[", `\`, "/a/l/*", "*/", `/a/\f`, `C:\*`}
@@ -238,15 +238,15 @@ func (d *dom) globPatterns() []argv {
 		ps = append(ps, "/*", `\*`, `C:*`, `\\host\share\*`)
 	}
 
-	return strs(patClass, ps...)
+	return strDomain(patClass, ps...)
 }
 
-func (d *dom) matchPatterns() []argv {
-	return strs(patClass, "", "*", "[", "[a-", "[^", "[]", `\`, "a*", "?", "[a-z]", `\\`, "*/f", "a[", "[!a]", "**")
+func (d *seqDom) matchPatterns() []seqArg {
+	return strDomain(patClass, "", "*", "[", "[a-", "[^", "[]", `\`, "a*", "?", "[a-z]", `\\`, "*/f", "a[", "[!a]", "**")
 }
 
-func (d *dom) matchNames() []argv {
-	return strs(func(s string) string {
+func (d *seqDom) matchNames() []seqArg {
+	return strDomain(func(s string) string {
 		if s == "" {
 			return "empty"
 		}
@@ -255,16 +255,16 @@ func (d *dom) matchNames() []argv {
 	}, "", "a", "ab", "a/f", `\`, "[")
 }
 
-func (d *dom) tmpPatterns() []argv {
-	return strs(patClass, "", "*", "x*y", "a/b", "/", `\`, "**", longName)
+func (d *seqDom) tmpPatterns() []seqArg {
+	return strDomain(patClass, "", "*", "x*y", "a/b", "/", `\`, "**", longName)
 }
 
-func (d *dom) names() []argv {
-	return strs(nameClass, "", "root", "usr", "grp", "nope", "a/b", longName, "ContainerAdministrator")
+func (d *seqDom) names() []seqArg {
+	return strDomain(nameClass, "", "root", "usr", "grp", "nope", "a/b", longName, "ContainerAdministrator")
 }
 
-func (d *dom) volumes() []argv {
-	return strs(volClass, "", "C:", `C:\`, "D:", `D:\`, "d:", "/", `\\host\share`, `\\`, "x", longName)
+func (d *seqDom) volumes() []seqArg {
+	return strDomain(volClass, "", "C:", `C:\`, "D:", `D:\`, "d:", "/", `\\host\share`, `\\`, "x", longName)
 }
 
 type numv struct {
@@ -272,8 +272,8 @@ type numv struct {
 	class string
 }
 
-func nums(t reflect.Type, ns ...numv) []argv {
-	var out []argv
+func numDomain(t reflect.Type, ns ...numv) []seqArg {
+	var out []seqArg
 
 	for _, n := range ns {
 		v := reflect.New(t).Elem()
@@ -284,7 +284,7 @@ func nums(t reflect.Type, ns ...numv) []argv {
 			g = "math.MinInt64"
 		}
 
-		out = append(out, argv{Class: n.class, Show: g, Go: g, V: v.Interface()})
+		out = append(out, seqArg{Class: n.class, Show: g, Go: g, V: v.Interface()})
 	}
 
 	return out
@@ -295,26 +295,26 @@ const fileSize = 2
 
 // sizes is the domain of sizes that make an in-memory file system allocate
 // proportionally (Truncate, WriteAt): nothing above 1 MiB.
-func sizes(t reflect.Type) []argv {
-	return nums(t, numv{math.MinInt64, "min"}, numv{-1, "neg"}, numv{0, "zero"}, numv{1, "pos"},
+func sizeDomain(t reflect.Type) []seqArg {
+	return numDomain(t, numv{math.MinInt64, "min"}, numv{-1, "neg"}, numv{0, "zero"}, numv{1, "pos"},
 		numv{fileSize, "eof"}, numv{fileSize + 1, "beyond"}, numv{1 << 20, "big"})
 }
 
 // offsets is the domain for calls that cannot allocate (Seek, ReadAt).
-func offsets(t reflect.Type) []argv {
-	return append(sizes(t), nums(t, numv{1 << 40, "huge"}, numv{math.MaxInt64, "max"})...)
+func offsetDomain(t reflect.Type) []seqArg {
+	return append(sizeDomain(t), numDomain(t, numv{1 << 40, "huge"}, numv{math.MaxInt64, "max"})...)
 }
 
-func whences(t reflect.Type) []argv {
-	return nums(t, numv{-1, "neg"}, numv{0, "start"}, numv{1, "cur"}, numv{2, "end"}, numv{3, "invalid"})
+func whenceDomain(t reflect.Type) []seqArg {
+	return numDomain(t, numv{-1, "neg"}, numv{0, "start"}, numv{1, "cur"}, numv{2, "end"}, numv{3, "invalid"})
 }
 
-func counts(t reflect.Type) []argv {
-	return nums(t, numv{-1, "neg"}, numv{0, "zero"}, numv{1, "pos"})
+func countDomain(t reflect.Type) []seqArg {
+	return numDomain(t, numv{-1, "neg"}, numv{0, "zero"}, numv{1, "pos"})
 }
 
-func ids(t reflect.Type) []argv {
-	return nums(t, numv{-1, "neg"}, numv{0, "zero"}, numv{1001, "pos"}, numv{1 << 31, "huge"})
+func idDomain(t reflect.Type) []seqArg {
+	return numDomain(t, numv{-1, "neg"}, numv{0, "zero"}, numv{1001, "pos"}, numv{1 << 31, "huge"})
 }
 
 func flagClass(f int) string {
@@ -360,7 +360,7 @@ func flagGo(f int) string {
 	return strings.Join(s, "|")
 }
 
-func (d *dom) flags() []argv {
+func (d *seqDom) flags() []seqArg {
 	var fl []int
 
 	if d.thorough {
@@ -396,9 +396,9 @@ func (d *dom) flags() []argv {
 
 	fl = append(fl, os.O_WRONLY|os.O_RDWR, 0x7FFFFFFF)
 
-	var out []argv
+	var out []seqArg
 	for _, f := range fl {
-		out = append(out, argv{Class: flagClass(f), Show: fsx.FlagString(f), Go: flagGo(f), V: f})
+		out = append(out, seqArg{Class: flagClass(f), Show: fsx.FlagString(f), Go: flagGo(f), V: f})
 	}
 
 	out[len(out)-1].Show = "0x7FFFFFFF"
@@ -406,8 +406,8 @@ func (d *dom) flags() []argv {
 	return out
 }
 
-func modes() []argv {
-	return []argv{
+func modeDomain() []seqArg {
+	return []seqArg{
 		{Class: "zero", Show: "0", Go: "fs.FileMode(0)", V: fs.FileMode(0)},
 		{Class: "rwx", Show: "0o777", Go: "fs.FileMode(0o777)", V: fs.FileMode(0o777)},
 		{Class: "dirbit", Show: "ModeDir|0o777", Go: "fs.ModeDir|0o777", V: fs.ModeDir | 0o777},
@@ -416,43 +416,43 @@ func modes() []argv {
 	}
 }
 
-func seps() []argv {
-	var out []argv
+func sepDomain() []seqArg {
+	var out []seqArg
 
 	for _, c := range []struct {
 		c     uint8
 		class string
 	}{{0, "zero"}, {'/', "slash"}, {'\\', "backslash"}, {'a', "letter"}, {255, "max"}} {
-		out = append(out, argv{Class: c.class, Show: fmt.Sprintf("%q", rune(c.c)), Go: fmt.Sprintf("uint8(%d)", c.c), V: c.c})
+		out = append(out, seqArg{Class: c.class, Show: fmt.Sprintf("%q", rune(c.c)), Go: fmt.Sprintf("uint8(%d)", c.c), V: c.c})
 	}
 
 	return out
 }
 
-func times() []argv {
-	return []argv{
+func timeDomain() []seqArg {
+	return []seqArg{
 		{Class: "zero", Show: "time.Time{}", Go: "time.Time{}", V: time.Time{}},
 		{Class: "fixed", Show: "time.Unix(1500000000,0)", Go: "time.Unix(1500000000, 0)", V: time.Unix(1_500_000_000, 0)},
 	}
 }
 
 // readBufs: buffers of length 0, 1, 4 (fresh per call).
-func readBufs() []argv {
-	var out []argv
+func readBufs() []seqArg {
+	var out []seqArg
 
 	for _, n := range []int{0, 1, 4} {
 		n := n
-		out = append(out, argv{
+		out = append(out, seqArg{
 			Class: fmt.Sprintf("buf%d", n), Show: fmt.Sprintf("make([]byte,%d)", n), Go: fmt.Sprintf("make([]byte, %d)", n),
-			Mk: func(*inst) any { return make([]byte, n) },
+			Mk: func(*seqInst) any { return make([]byte, n) },
 		})
 	}
 
 	return out
 }
 
-func writeData() []argv {
-	return []argv{
+func writeData() []seqArg {
+	return []seqArg{
 		{Class: "nil", Show: "nil", Go: "[]byte(nil)", V: []byte(nil)},
 		{Class: "empty", Show: "[]byte{}", Go: "[]byte{}", V: []byte{}},
 		{Class: "len1", Show: `[]byte("z")`, Go: `[]byte("z")`, V: []byte("z")},
@@ -460,13 +460,13 @@ func writeData() []argv {
 	}
 }
 
-func writeStrings() []argv {
-	return strs(func(s string) string { return fmt.Sprintf("len%d", len(s)) }, "", "z", "hello")
+func writeStrings() []seqArg {
+	return strDomain(func(s string) string { return fmt.Sprintf("len%d", len(s)) }, "", "z", "hello")
 }
 
 var errWalk = errors.New("c07: walk error")
 
-func walkFuncs() []argv {
+func walkFuncs() []seqArg {
 	mk := func(ret error) fs.WalkDirFunc {
 		n := 0
 
@@ -482,31 +482,31 @@ func walkFuncs() []argv {
 
 	gof := func(r string) string { return "func(string, fs.DirEntry, error) error { return " + r + " }" }
 
-	return []argv{
-		{Class: "fn-nil", Show: "func→nil", Go: gof("nil"), Mk: func(*inst) any { return mk(nil) }},
-		{Class: "fn-skipdir", Show: "func→SkipDir", Go: gof("fs.SkipDir"), Mk: func(*inst) any { return mk(fs.SkipDir) }},
-		{Class: "fn-skipall", Show: "func→SkipAll", Go: gof("fs.SkipAll"), Mk: func(*inst) any { return mk(fs.SkipAll) }},
-		{Class: "fn-error", Show: "func→error", Go: gof(`errors.New("stop")`), Mk: func(*inst) any { return mk(errWalk) }},
+	return []seqArg{
+		{Class: "fn-nil", Show: "func→nil", Go: gof("nil"), Mk: func(*seqInst) any { return mk(nil) }},
+		{Class: "fn-skipdir", Show: "func→SkipDir", Go: gof("fs.SkipDir"), Mk: func(*seqInst) any { return mk(fs.SkipDir) }},
+		{Class: "fn-skipall", Show: "func→SkipAll", Go: gof("fs.SkipAll"), Mk: func(*seqInst) any { return mk(fs.SkipAll) }},
+		{Class: "fn-error", Show: "func→error", Go: gof(`errors.New("stop")`), Mk: func(*seqInst) any { return mk(errWalk) }},
 	}
 }
 
-func users() []argv {
-	return []argv{
-		{Class: "admin", Show: "admin user of the idm", Go: "idm.AdminUser()", Mk: func(in *inst) any { return in.admin }},
-		{Class: "nonadmin", Show: "non-admin user usr", Go: "usr", Mk: func(in *inst) any { return in.usr }},
+func userDomain() []seqArg {
+	return []seqArg{
+		{Class: "admin", Show: "admin user of the idm", Go: "idm.AdminUser()", Mk: func(in *seqInst) any { return in.admin }},
+		{Class: "nonadmin", Show: "non-admin user usr", Go: "usr", Mk: func(in *seqInst) any { return in.usr }},
 	}
 }
 
-func idms() []argv {
-	return []argv{
+func idmDomain() []seqArg {
+	return []seqArg{
 		{Class: "nil", Show: "nil", Go: "nil", V: nil},
-		{Class: "memidm", Show: "memidm.New()", Go: "memidm.New()", Mk: func(*inst) any { return memidm.New() }},
+		{Class: "memidm", Show: "memidm.New()", Go: "memidm.New()", Mk: func(*seqInst) any { return memidm.New() }},
 		{Class: "dummy", Show: "avfs.NotImplementedIdm", Go: "avfs.NotImplementedIdm", V: avfs.IdentityMgr(avfs.NotImplementedIdm)},
 	}
 }
 
-func features() []argv {
-	return []argv{
+func featureDomain() []seqArg {
+	return []seqArg{
 		{Class: "zero", Show: "0", Go: "avfs.Features(0)", V: avfs.Features(0)},
 		{Class: "one", Show: "FeatHardlink", Go: "avfs.FeatHardlink", V: avfs.FeatHardlink},
 		{Class: "allbits", Show: "^Features(0)", Go: "^avfs.Features(0)", V: ^avfs.Features(0)},
@@ -515,18 +515,18 @@ func features() []argv {
 
 // ownInfos: FileInfo values obtained from Stat on this very instance right
 // after its construction (file, directory).
-func (d *dom) ownInfos() []argv {
+func (d *seqDom) ownInfos() []seqArg {
 	f, a := d.px("/a/f"), d.px("/a")
 
-	return []argv{
-		{Class: "own-file", Show: fmt.Sprintf("vfs.Stat(%q)", f), Go: fmt.Sprintf("mustStat(vfs, %q)", f), Mk: func(in *inst) any {
+	return []seqArg{
+		{Class: "own-file", Show: fmt.Sprintf("vfs.Stat(%q)", f), Go: fmt.Sprintf("mustStat(vfs, %q)", f), Mk: func(in *seqInst) any {
 			if in.infoF == nil {
 				panic(notApplicable{"Stat of the harness file failed"})
 			}
 
 			return in.infoF
 		}},
-		{Class: "own-dir", Show: fmt.Sprintf("vfs.Stat(%q)", a), Go: fmt.Sprintf("mustStat(vfs, %q)", a), Mk: func(in *inst) any {
+		{Class: "own-dir", Show: fmt.Sprintf("vfs.Stat(%q)", a), Go: fmt.Sprintf("mustStat(vfs, %q)", a), Mk: func(in *seqInst) any {
 			if in.infoD == nil {
 				panic(notApplicable{"Stat of the harness directory failed"})
 			}
@@ -537,12 +537,12 @@ func (d *dom) ownInfos() []argv {
 }
 
 // sameInfos adds an info from a file system of a different type.
-func (d *dom) sameInfos() []argv {
+func (d *seqDom) sameInfos() []seqArg {
 	f := d.px("/a/f")
 
-	return append(d.ownInfos(), argv{
+	return append(d.ownInfos(), seqArg{
 		Class: "foreign", Show: fmt.Sprintf("other.Stat(%q) (file system of another type)", f), Go: fmt.Sprintf("mustStat(other, %q)", f),
-		Mk: func(in *inst) any {
+		Mk: func(in *seqInst) any {
 			fi, err := in.getOther().Stat(f)
 			if err != nil {
 				panic(harnessError{"Stat on the foreign file system: " + err.Error()})
@@ -553,10 +553,10 @@ func (d *dom) sameInfos() []argv {
 	})
 }
 
-func hashes(withNil bool) []argv {
-	out := []argv{{Class: "sha512", Show: "sha512.New()", Go: "sha512.New()", Mk: func(*inst) any { return sha512.New() }}}
+func hashDomain(withNil bool) []seqArg {
+	out := []seqArg{{Class: "sha512", Show: "sha512.New()", Go: "sha512.New()", Mk: func(*seqInst) any { return sha512.New() }}}
 	if withNil {
-		out = append(out, argv{Class: "nil", Show: "nil", Go: "nil", V: hash.Hash(nil)})
+		out = append(out, seqArg{Class: "nil", Show: "nil", Go: "nil", V: hash.Hash(nil)})
 	}
 
 	return out
@@ -564,23 +564,23 @@ func hashes(withNil bool) []argv {
 
 // joinElems is the domain of the variadic parameter of Join: 0, 1, 2 and 3
 // elements (1: full path domain; 2 and 3: core domain).
-func (d *dom) joinElems() []argv {
-	out := []argv{{Class: "none", Show: "", Go: "", V: []string{}}}
+func (d *seqDom) joinElems() []seqArg {
+	out := []seqArg{{Class: "none", Show: "", Go: "", V: []string{}}}
 
 	for _, a := range d.paths {
-		out = append(out, argv{Class: a.Class, Show: a.Show, Go: a.Go, V: []string{a.V.(string)}})
+		out = append(out, seqArg{Class: a.Class, Show: a.Show, Go: a.Go, V: []string{a.V.(string)}})
 	}
 
 	for _, a := range d.core {
 		for _, b := range d.core {
-			out = append(out, argv{Class: a.Class + "+" + b.Class, Show: a.Show + "," + b.Show, Go: a.Go + ", " + b.Go, V: []string{a.V.(string), b.V.(string)}})
+			out = append(out, seqArg{Class: a.Class + "+" + b.Class, Show: a.Show + "," + b.Show, Go: a.Go + ", " + b.Go, V: []string{a.V.(string), b.V.(string)}})
 		}
 	}
 
 	for _, a := range d.core {
 		for _, b := range d.core {
 			for _, c := range d.core {
-				out = append(out, argv{
+				out = append(out, seqArg{
 					Class: a.Class + "+" + b.Class + "+" + c.Class, Show: a.Show + "," + b.Show + "," + c.Show,
 					Go: a.Go + ", " + b.Go + ", " + c.Go, V: []string{a.V.(string), b.V.(string), c.V.(string)},
 				})
@@ -625,7 +625,7 @@ var strRoles = map[string]string{
 // a meaningless domain).
 var numRoles = map[string]string{
 	"vfs.OpenFile#1": "flag", "vfs.Chown#1": "id", "vfs.Chown#2": "id", "vfs.Lchown#1": "id", "vfs.Lchown#2": "id",
-	"vfs.Truncate#1": "size",
+	"vfs.Truncate#1":      "size",
 	"idm.LookupGroupId#0": "id", "idm.LookupUserId#0": "id",
 	"file.Chown#0": "id", "file.Chown#1": "id", "file.ReadDir#0": "count", "file.Readdirnames#0": "count",
 	"file.Seek#0": "offset", "file.Seek#1": "whence", "file.Truncate#0": "size", "file.ReadAt#1": "offset", "file.WriteAt#1": "size",
@@ -635,7 +635,7 @@ var numRoles = map[string]string{
 
 // domainFor returns the domain of parameter pos (type t) of method in section
 // sec. npaths is the number of path-role string parameters of the method.
-func (d *dom) domainFor(sec, method string, pos int, t reflect.Type, npaths int) ([]argv, error) {
+func (d *seqDom) domainFor(sec, method string, pos int, t reflect.Type, npaths int) ([]seqArg, error) {
 	key := fmt.Sprintf("%s.%s#%d", sec, method, pos)
 
 	switch t {
@@ -671,15 +671,15 @@ func (d *dom) domainFor(sec, method string, pos int, t reflect.Type, npaths int)
 		case "flag":
 			return d.flags(), nil
 		case "id":
-			return ids(t), nil
+			return idDomain(t), nil
 		case "size":
-			return sizes(t), nil
+			return sizeDomain(t), nil
 		case "offset":
-			return offsets(t), nil
+			return offsetDomain(t), nil
 		case "whence":
-			return whences(t), nil
+			return whenceDomain(t), nil
 		case "count":
-			return counts(t), nil
+			return countDomain(t), nil
 		case "rbuf":
 			return readBufs(), nil
 		case "wdata":
@@ -692,19 +692,19 @@ func (d *dom) domainFor(sec, method string, pos int, t reflect.Type, npaths int)
 			return d.joinElems(), nil
 		}
 	case tFileMode:
-		return modes(), nil
+		return modeDomain(), nil
 	case tUint8:
-		return seps(), nil
+		return sepDomain(), nil
 	case tTime:
-		return times(), nil
+		return timeDomain(), nil
 	case tWalkFn:
 		return walkFuncs(), nil
 	case tUser:
-		return users(), nil
+		return userDomain(), nil
 	case tIdm:
-		return idms(), nil
+		return idmDomain(), nil
 	case tFeatures:
-		return features(), nil
+		return featureDomain(), nil
 	case tFileInfo:
 		switch method {
 		case "SameFile":
